@@ -10,7 +10,7 @@ D-d  direction plumbing: statement direction = serializer direction = profile ha
      direction flag; the serializer family is built from the same options; subject and object arms are symmetric.
 Undecided: equality with the reversed graph for all graphs (follows only together with C01's value-level part)."""
 from ..report import Floor
-from ..rules import twin, direction, threshold, memo, gens, count
+from ..rules import twin, direction, threshold, memo, gens, count, mergetable
 from .. import exceptions
 
 
@@ -30,6 +30,7 @@ def check(ctx, tier):
     obs += ctx.attempt(lambda c, cl: memo.check(c, cl)[0], ctx, "D-d", default=[])
     obs += ctx.attempt(lambda c, cl: gens.check(c, cl)[0], ctx, "D-e", default=[])
     obs += ctx.attempt(lambda c, cl: count.class_iteration_agreement(c, cl)[0], ctx, "D-f", default=[])
+    obs += ctx.attempt(lambda c, cl: mergetable.invariants(c, cl, which=('direction',))[0], ctx, "D-g", default=[])
     exceptions.apply(obs)
     return {"obs": obs, "floors": [Floor("twin pairs compared", len(tw), 18), Floor("direction-plumbing sites", n_dir, 4)],
             "explanation": "Sibling agreement (normalised AST comparison modulo a role map) of every direct/inverse pair of the profiling, "
